@@ -611,7 +611,74 @@ func runDurPublish(c *Ctx, r *RuleRun) {
 				case "wal":
 					r.Hold(fn, "create(wal)", pos, "wal files are valid when empty or torn (see DUR.TORN)")
 				default:
-					r.Undecided(fn, "create(unknown)", pos, "cannot classify the created file")
+					// a file of another kind (neither table nor wal). It matters to C14 when the engine writes content
+					// into it and reads a file of that name back: then it is relied upon and has to be fsynced first.
+					call, _ := fe.Ins.(*ssa.Call)
+					var obj *types.Func
+					if call != nil {
+						obj = p.CalleeObj(call)
+					}
+					if call == nil || obj == nil {
+						r.Undecided(fn, "create(unknown)", pos, "cannot classify the created file")
+						break
+					}
+					var mine []string
+					p.stringConsts(call.Call.Args[0], 0, map[ssa.Value]bool{}, &mine)
+					readBack := false
+					for _, g := range p.Funcs {
+						eachInstr(g, func(i2 ssa.Instruction) {
+							c2, ok := i2.(*ssa.Call)
+							if !ok || c2 == call {
+								return
+							}
+							o2 := p.CalleeObj(c2)
+							if o2 == nil || !(funcIs(o2, "os", "", "ReadFile") || funcIs(o2, "os", "", "Open") || funcIs(o2, "os", "", "OpenFile")) {
+								return
+							}
+							var theirs []string
+							p.stringConsts(c2.Call.Args[0], 0, map[ssa.Value]bool{}, &theirs)
+							for _, a := range mine {
+								for _, b := range theirs {
+									if a == b && len(strings.Trim(a, "/%sdv.-")) > 1 {
+										readBack = true
+									}
+								}
+							}
+						})
+					}
+					if !readBack {
+						r.Hold(fn, "create(other)", pos, "a file of another kind that the engine never reads back")
+						break
+					}
+					if funcIs(obj, "os", "", "WriteFile") {
+						r.Viol(fn, "create(other)", pos, "a file the engine reads back (and acts upon) is written with os.WriteFile, which never fsyncs: after a power loss it can be empty or partial although everything that depends on it was acknowledged")
+						break
+					}
+					// OpenFile/Create: every return of the function is preceded by a checked Sync on a file (approximation:
+					// the function syncs at all on every path that wrote)
+					md := NewMustDo(p, func(i ssa.Instruction) bool {
+						c3, ok := i.(*ssa.Call)
+						if !ok {
+							return false
+						}
+						o3 := p.CalleeObj(c3)
+						return o3 != nil && funcIs(o3, "os", "File", "Sync")
+					})
+					wrote := p.FuncMayDo(f, func(i ssa.Instruction) bool {
+						c3, ok := i.(*ssa.Call)
+						if !ok {
+							return false
+						}
+						o3 := p.CalleeObj(c3)
+						return o3 != nil && (funcIs(o3, "os", "File", "Write") || funcIs(o3, "os", "File", "WriteString") || funcIs(o3, "os", "File", "WriteAt"))
+					})
+					if !wrote {
+						r.Hold(fn, "create(other)", pos, "created without content")
+						break
+					}
+					q := PathQuery{P: p, Fn: f, Starts: []ssa.Instruction{fe.Ins}, Avoid: md.Instr, Target: isSuccessReturn}
+					r.Check(q.FindPath() == nil, fn, "create(other)", pos, "content is fsynced before the function returns successfully",
+						"a file the engine reads back is written but not fsynced before its writer returns")
 				}
 			case "rename":
 				if fe.To != "table" {
